@@ -112,7 +112,7 @@ def _class_assigns(cls):
 
 # ------------------------------------------------------------------ parse.py
 
-def parser_tables():
+def _parser_tables_source():
     tree = _parse("jsonpath/parse.py")
     cls = _class(tree, "Parser")
     asg = _class_assigns(cls)
@@ -186,7 +186,7 @@ def filter_tables():
 
 # ------------------------------------------------------------------ env.py + function_extensions
 
-def env_tables():
+def _env_tables_source():
     tree = _parse("jsonpath/env.py")
     cls = _class(tree, "JSONPathEnvironment")
     asg = _class_assigns(cls)
@@ -233,7 +233,7 @@ def env_tables():
 
 # ------------------------------------------------------------------ pointer.py
 
-def pointer_tables():
+def _pointer_tables_source():
     tree = _parse("jsonpath/pointer.py")
     cls = _class(tree, "JSONPointer")
     asg = _class_assigns(cls)
@@ -251,10 +251,97 @@ def pointer_tables():
 
 # ------------------------------------------------------------------ exceptions.py
 
-def exception_tables():
+def _exception_tables_source():
     tree = _parse("jsonpath/exceptions.py")
     return [(n.name, [_name_of(b) for b in n.bases]) for n in tree.body if isinstance(n, ast.ClassDef)]
 
+
+
+# ------------------------------------------------------------------ value tables read from the running code
+#
+# Constants (precedence and operator maps, token spellings, limits, the function registry with its signatures, the
+# pointer patterns, the exception hierarchy) are what the interpreter holds after importing the package from the
+# repository under test - however the source spells them. They are read there first; the source text is the fallback.
+
+def _mod(name):
+    import importlib
+    return importlib.import_module(name)
+
+
+def _token_names():
+    T = _mod("jsonpath.token")
+    names = {}
+    for k, v in vars(T).items():
+        if k.startswith("TOKEN_") and isinstance(v, str):
+            if v in names:
+                raise TableError(f"two token constants share the value {v!r}")
+            names[v] = k
+    return names
+
+
+def _leading_zero_source():
+    try:
+        return _parser_tables_source()["leading_zero"]
+    except Exception:  # noqa: BLE001
+        return "<not recognised>"
+
+
+def parser_tables():
+    try:
+        P = _mod("jsonpath.parse").Parser
+        names = _token_names()
+        out = {
+            "prec_consts": {k: int(v) for k, v in vars(P).items() if k.startswith("PRECEDENCE_") and isinstance(v, int)},
+            "precedences": [(names[k], int(v)) for k, v in P.PRECEDENCES.items()],
+            "binops": [(names[k], str(v)) for k, v in P.BINARY_OPERATORS.items()],
+            "comparison": [names.get(x, x) for x in P.COMPARISON_OPERATORS],
+            "infix_literal": [names.get(x, x) for x in P.INFIX_LITERAL_OPERATORS],
+            "prefix": [names.get(x, x) for x in P.PREFIX_OPERATORS],
+        }
+        if not out["precedences"] or not out["prec_consts"]:
+            raise TableError("empty")
+    except Exception:  # noqa: BLE001
+        return _parser_tables_source()
+    out["leading_zero"] = _leading_zero_source()
+    return out
+
+
+def env_tables():
+    try:
+        E = _mod("jsonpath").JSONPathEnvironment
+        FF = _mod("jsonpath.function_extensions").FilterFunction
+        toks = {k: getattr(E, k) for k in ("fake_root_token", "filter_context_token", "intersection_token", "key_token", "keys_selector_token", "root_token", "self_token", "union_token")}
+        if not all(isinstance(v, str) for v in toks.values()):
+            raise TableError("token spellings are not strings")
+        funcs = []
+        for name, f in E().function_extensions.items():
+            if isinstance(f, FF) and hasattr(f, "arg_types") and hasattr(f, "return_type"):
+                funcs.append((name, [t.name for t in f.arg_types], f.return_type.name))
+            else:
+                funcs.append((name, None, None))
+        return {"tokens": toks, "limits": {"max_int_index": int(E.max_int_index), "min_int_index": int(E.min_int_index)}, "functions": funcs}
+    except Exception:  # noqa: BLE001
+        return _env_tables_source()
+
+
+def pointer_tables():
+    try:
+        M = _mod("jsonpath.pointer")
+        return {"keys_selector": str(M.JSONPointer.keys_selector), "max_int_index": int(M.JSONPointer.max_int_index), "min_int_index": int(M.JSONPointer.min_int_index),
+                "RE_INDEX_TOKEN": M.RE_INDEX_TOKEN.pattern, "RE_RELATIVE_POINTER": M.RE_RELATIVE_POINTER.pattern}
+    except Exception:  # noqa: BLE001
+        return _pointer_tables_source()
+
+
+def exception_tables():
+    try:
+        M = _mod("jsonpath.exceptions")
+        out = [(k, [b.__name__ for b in c.__bases__]) for k, c in vars(M).items() if isinstance(c, type) and c.__module__ == M.__name__]
+        if not out:
+            raise TableError("empty")
+        return out
+    except Exception:  # noqa: BLE001
+        return _exception_tables_source()
 
 # ------------------------------------------------------------------ lex.py
 
